@@ -26,10 +26,9 @@ Record jst := mkj {
   j_locked : list N;          (* containers locked by the dispatcher *)
   j_cancelled : list (N * Z); (* cancelled from outside, when *)
   j_bad : list (N * Z);       (* vm first seen held / draining / shut down, when *)
-  j_seen : list N;            (* VMs that answered a command of the present dispatcher *)
-  j_unlocked : list (N * Z)   (* when the dispatcher last unlocked / cancelled the container *)
+  j_seen : list N             (* VMs that answered a command of the present dispatcher *)
 }.
-Definition j0 : jst := mkj [] [] [] [] [] [] [].
+Definition j0 : jst := mkj [] [] [] [] [] [].
 
 Definition memNN (x : N * N) (l : list (N * N)) : bool := existsb (fun y => N.eqb (fst x) (fst y) && N.eqb (snd x) (snd y)) l.
 Definition memN (x : N) (l : list N) : bool := existsb (N.eqb x) l.
@@ -42,42 +41,40 @@ Definition grace : Z := 1500.   (* ms between a decision of the dispatcher and t
 
 Definition step_j (e : xev) (s : jst) : jst :=
   match e with
-  | XStartBegin _ vm u _ => mkj (j_live s) ((vm, u) :: j_infl s) (j_locked s) (j_cancelled s) (j_bad s) (vm :: j_seen s) (j_unlocked s)
+  | XStartBegin _ vm u _ => mkj (j_live s) ((vm, u) :: j_infl s) (j_locked s) (j_cancelled s) (j_bad s) (vm :: j_seen s)
   | XStartEnd _ vm u ok =>
-      mkj (if ok then (vm, u) :: j_live s else j_live s) (delNN (vm, u) (j_infl s)) (j_locked s) (j_cancelled s) (j_bad s) (j_seen s) (j_unlocked s)
+      mkj (if ok then (vm, u) :: j_live s else j_live s) (delNN (vm, u) (j_infl s)) (j_locked s) (j_cancelled s) (j_bad s) (j_seen s)
   | XList _ vm l =>
-      mkj (filter (fun p => negb (N.eqb (fst p) vm) || memN (snd p) l) (j_live s)) (j_infl s) (j_locked s) (j_cancelled s) (j_bad s) (vm :: j_seen s) (j_unlocked s)
-  | XKilled _ vm u => mkj (delNN (vm, u) (j_live s)) (j_infl s) (j_locked s) (j_cancelled s) (j_bad s) (j_seen s) (j_unlocked s)
+      mkj (filter (fun p => negb (N.eqb (fst p) vm) || memN (snd p) l) (j_live s)) (j_infl s) (j_locked s) (j_cancelled s) (j_bad s) (vm :: j_seen s)
+  | XKilled _ vm u => mkj (delNN (vm, u) (j_live s)) (j_infl s) (j_locked s) (j_cancelled s) (j_bad s) (j_seen s)
   | XCloud _ vms =>
       mkj (filter (fun p => memN (fst p) vms) (j_live s)) (filter (fun p => memN (fst p) vms) (j_infl s))
-          (j_locked s) (j_cancelled s) (j_bad s) (j_seen s) (j_unlocked s)
-  | XLock _ u => mkj (j_live s) (j_infl s) (u :: j_locked s) (j_cancelled s) (j_bad s) (j_seen s) (j_unlocked s)
-  | XUnlock t u | XCancel t u =>
+          (j_locked s) (j_cancelled s) (j_bad s) (j_seen s)
+  | XLock _ u => mkj (j_live s) (j_infl s) (u :: j_locked s) (j_cancelled s) (j_bad s) (j_seen s)
+  | XUnlock _ u | XCancel _ u =>
       mkj (j_live s) (j_infl s) (filter (fun x => negb (N.eqb x u)) (j_locked s)) (j_cancelled s) (j_bad s) (j_seen s)
-          ((u, t) :: filter (fun kv => negb (N.eqb (fst kv) u)) (j_unlocked s))
   | XExtCancel t u =>
-      mkj (j_live s) (j_infl s) (j_locked s) (match lookZ u (j_cancelled s) with Some _ => j_cancelled s | None => (u, t) :: j_cancelled s end) (j_bad s) (j_seen s) (j_unlocked s)
+      mkj (j_live s) (j_infl s) (j_locked s) (match lookZ u (j_cancelled s) with Some _ => j_cancelled s | None => (u, t) :: j_cancelled s end) (j_bad s) (j_seen s)
   | XInst t vm st ib =>
       if (N.eqb st 4 || negb (N.eqb ib 0)) && match lookZ vm (j_bad s) with Some _ => false | None => true end
-      then mkj (j_live s) (j_infl s) (j_locked s) (j_cancelled s) ((vm, t) :: j_bad s) (j_seen s) (j_unlocked s)
+      then mkj (j_live s) (j_infl s) (j_locked s) (j_cancelled s) ((vm, t) :: j_bad s) (j_seen s)
       else s
-  | XRestart _ => mkj (j_live s) (j_infl s) (j_locked s) (j_cancelled s) (j_bad s) [] (j_unlocked s)
+  | XRestart _ => mkj (j_live s) (j_infl s) (j_locked s) (j_cancelled s) (j_bad s) []
   | XDestroy _ vm =>
       (* environment assumption of C14: an instance that the present dispatcher gives up without ever having
          got an answer from it runs no crunch-run process *)
       if memN vm (j_seen s) then s
-      else mkj (filter (fun p => negb (N.eqb (fst p) vm)) (j_live s)) (j_infl s) (j_locked s) (j_cancelled s) (j_bad s) (j_seen s) (j_unlocked s)
+      else mkj (filter (fun p => negb (N.eqb (fst p) vm)) (j_live s)) (j_infl s) (j_locked s) (j_cancelled s) (j_bad s) (j_seen s)
   end.
 
 (* what the property demands when a start command arrives *)
 Definition start_ok (s : jst) (t : Z) (vm u : N) (vm_booting : bool) : bool :=
   (* no crunch-run process for this container may be alive anywhere, none is being started *)
   negb (memN u (map snd (j_live s))) && negb (memN u (map snd (j_infl s))) &&
-  (* the container is locked by this dispatcher (priority is fixed > 0 in this stage) -- or the dispatcher
-     itself released the lock less than [grace] ago (the decision to start was taken while it was held; a
-     requeue/cancel goroutine working on an older snapshot may release it concurrently) -- and it was not
-     cancelled from outside more than [grace] ago *)
-  (memN u (j_locked s) || match lookZ u (j_unlocked s) with Some tu => t <=? tu + grace | None => false end) &&
+  (* the container is locked by this dispatcher at the moment the start command arrives (priority is fixed
+     > 0 in this stage; no tolerance: finding F21 is fixed) and was not cancelled from outside more than
+     [grace] ago *)
+  memN u (j_locked s) &&
   match lookZ u (j_cancelled s) with Some tc => t <=? tc + grace | None => true end &&
   (* not on a VM that is still booting, nor on one seen held/draining/shut down more than [grace] ago *)
   negb vm_booting &&
